@@ -87,5 +87,9 @@ namespace sim
    SIM_IO_DECL( 10, 1 )
    SIM_IO_DECL( 10, 2 )
    SIM_IO_DECL( 10, 3 )
+   SIM_IO_DECL( 11, 0 )
+   SIM_IO_DECL( 11, 1 )
+   SIM_IO_DECL( 11, 2 )
+   SIM_IO_DECL( 11, 3 )
 #undef SIM_IO_DECL
 }  // namespace sim
